@@ -533,6 +533,14 @@ func TestC08Default(t *testing.T) {
 		c := genC08Case(t)
 		// make sure the history exceeds the default capacity between repeats
 		c.Ops = append(c.Ops, C08Op{Fill: &C08Fill{From: rapid.IntRange(0, bankSize-1).Draw(t, "from"), N: rapid.IntRange(513, 560).Draw(t, "n"), Tag: rapid.SampledFrom(multiTags).Draw(t, "ftag")}})
+		if rapid.IntRange(0, 2).Draw(t, "manyTypesCall") == 1 {
+			// one call over more struct types than the cache holds, nested or side by side, rules behind the descent
+			mc := manyTypesCase(t)
+			mc.Entry = "Struct"
+			at := rapid.IntRange(0, len(c.Ops)).Draw(t, "manyAt")
+			c.Ops = append(c.Ops[:at:at], append([]C08Op{{Call: &Call{S: mc}}}, c.Ops[at:]...)...)
+			ev.Class("one call over more than 512 distinct struct types")
+		}
 		n := len(c.Ops) - 1
 		for i := 0; i < n; i++ {
 			if c.Ops[i].Call != nil {
